@@ -3,6 +3,7 @@ import OjgVerif.Asm.LemmasPrint
 import OjgVerif.Asm.LemmasNum
 import OjgVerif.Asm.LemmasPlan
 import OjgVerif.Asm.LemmasRerun
+import OjgVerif.Asm.LemmasTotal
 import OjgVerif.Gen.AsmFacts
 /-! # C20 — assembly plans evaluate totally, deterministically and as documented
 
@@ -14,13 +15,15 @@ commit repaired it) and proved for the code that does not.
 
 1. source ties: the function registry, the recover wrapper of `Plan.Execute`, the dispatch shapes the
    deviation flags stand for;
-2. totality: no panic leaves `execute`; the only way not to finish is unbounded recursion over cyclic
-   data (`diverge`), which does happen (`total_full_false`);
+2. totality: no panic leaves `execute`; GENERAL (`execute_total`): every plan over the modelled functions
+   that fits the fuel, has its literals in the plan's cells and never calls `equal`/`neq` returns nil or
+   an error (or leaves the model / needs a map order) for every root and data — never out of fuel, never
+   diverging; the exclusion is needed: `equal` on cyclic data does not end (`total_full_false`);
 3. determinism: a run that never needs a map iteration order is the same under every order; a plan
-   that enumerates a map is not (`order_matters`); re-running the same plan is not deterministic in the
-   code before 52cf3c4 because literals were shared (`rerun_full_false_before`) nor before 9281d31 for
-   a list value of `cond` (`rerun_cond_false_before`); on both witnesses the code as it is agrees with
-   itself (`rerun_counter_current`, `rerun_cond_counter_current`), in general this is oracle (b) of the run;
+   that enumerates a map is not (`order_matters`); GENERAL (`plan_cells_untouched`, `execute_insert`,
+   `rerun_general`): no plan ever edits its own cells, evaluation commutes with inserting cells between
+   plan and data, hence executing one plan twice on equal roots gives equal results and leaves the plan
+   as it was — false before 52cf3c4 / 9281d31 (`rerun_full_false_before`, `rerun_cond_false_before`);
 4. documented results: `eval f args = Spec.describe f (values of args)` for every function whose
    arguments are evaluated values, for arguments of every kind that evaluate without effect — with no
    side condition in the code as it is (`evalFn_describe_current`); the path,
@@ -128,6 +131,63 @@ theorem total_partial (env : Env) (fuel : Nat) (plan : Option Arg) (root : Val) 
 
 example : (execute envCur true 5 (some (.call b!"set" [.path ⟨false, [.child b!"asm"]⟩, .lit (.int 1)])) (.mref 0)
     [Cell.map []]).1 ≠ .diverge := by decide
+
+/-- GENERAL no-fault theorem for the modelled functions (the model-level counterpart of C06 for asm). Heap
+split at `k` as in `rerun_general`: the plan's cells below `k`, laid out children first (`PlanOrd`: the
+literals are finite trees), the data from `k` on, not referring to the plan, with the root in it. For
+EVERY plan that fits (`Fit k (fuel + 1) plan`: its literals live in the plan's cells, its calls nest no
+deeper than the fuel, and it never calls `equal`/`neq` — the named exclusion: structural comparison is
+the one modelled traversal that does not end on cyclic data, C20-cyclic-data), every root and every data,
+under the deviations of the code as it is: `Execute` returns nil or an error, or the run leaves the model
+(`unmodelled`) or needs a map order (`enum`). It never faults: no panic escapes, it never runs out of
+fuel, it never diverges — cyclic data or not (a plan without `equal`/`neq` may build cycles freely). -/
+theorem execute_total (dev : Dev) (hd : dev.copies) (fuel : Nat) (plan : Arg) (root : Val) (h : Heap) (k : Nat)
+    (hk : k ≤ h.length) (hh : HeapHi k h) (hp : PlanOrd k h) (hroot : root.hi k) (hfit : Fit k (fuel + 1) plan) :
+    (execute ⟨dev, none⟩ true fuel (some plan) root h).1 ∈ [Outcome.ok, .err, .unmodelled, .enum] := by
+  unfold execute
+  simp only
+  cases plan with
+  | lit v => simp
+  | raw v es => simp
+  | path p => simp
+  | unk => simp
+  | call f args =>
+    simp only
+    cases hfit with
+    | call _ _ _ hf hargs =>
+      have hst := evalFn_st dev hd (eval ⟨dev, none⟩ root fuel) root root hroot hroot f hf args
+        (fun a ha => (hargs a ha).argLo)
+        (fun a ha at' hat' => eval_st dev hd root hroot fuel a (hargs a ha) at' hat')
+        (by
+          intro a ha c hc at' hat'
+          have hfa := hargs a ha
+          cases a <;> simp [condKids] at hc
+          cases hfa with
+          | raw _ _ _ _ hes => exact eval_st dev hd root hroot fuel c (hes c hc) at' hat')
+      have hm := hst.tot.run h hh hk hp
+      cases hr : evalFn ⟨dev, none⟩ (eval ⟨dev, none⟩ root fuel) root root f args h with
+      | mk res h' =>
+        rw [hr] at hm
+        cases res with
+        | ok v => simp
+        | error e =>
+          rcases hm e rfl with he | he | he <;> subst he <;> simp
+
+/-- the code as it is -/
+theorem execute_total_current (fuel : Nat) (plan : Arg) (root : Val) (h : Heap) (k : Nat)
+    (hk : k ≤ h.length) (hh : HeapHi k h) (hp : PlanOrd k h) (hroot : root.hi k) (hfit : Fit k (fuel + 1) plan) :
+    (execute envCur true fuel (some plan) root h).1 ∈ [Outcome.ok, .err, .unmodelled, .enum] :=
+  execute_total Dev.current ⟨rfl, rfl, rfl⟩ fuel plan root h k hk hh hp hroot hfit
+
+/-- the exclusion is needed: `cyclicPlan` fits in every other respect (no literals, nesting 2) but calls `eq`,
+and diverges (`total_full_false`); a plan that builds the same cycle without comparing it,
+`[set $.asm $]`, is covered by `execute_total` and ends `ok` -/
+example : Fit 0 2 (.call b!"set" [.path ⟨false, [.child b!"asm"]⟩, .path ⟨false, []⟩]) ∧
+    (execute envCur true 1 (some (.call b!"set" [.path ⟨false, [.child b!"asm"]⟩, .path ⟨false, []⟩])) (.mref 0)
+      [Cell.map []]).1 = .ok := by
+  refine ⟨.call _ _ _ (by decide) (fun a ha => ?_), by decide⟩
+  simp at ha
+  rcases ha with ha | ha <;> subst ha <;> exact .path _ _
 
 /-! ## 3. determinism -/
 
@@ -480,6 +540,18 @@ example : ArgLo 2 condCounterPlan ∧ PlanClosed 2 condCounterHeap ∧
     · rcases hv with hv | hv <;> subst hv
       · trivial
       · show 0 < 2; omega
+
+/-- an instance of `PlanOrd`: the plan cells of `condCounterHeap` (cell 0 the list `[0 7]`, cell 1 the pair
+that refers to cell 0) -/
+example : PlanOrd 2 condCounterHeap := by
+  intro i c hi hget
+  have : i = 0 ∨ i = 1 := by omega
+  rcases this with h | h <;> subst h <;> simp [condCounterHeap] at hget <;> subst hget <;>
+    intro v hv <;> simp at hv
+  · rcases hv with hv | hv <;> subst hv <;> trivial
+  · rcases hv with hv | hv <;> subst hv
+    · trivial
+    · show 0 < 1; omega
 
 /-! ## 4. documented results -/
 
